@@ -138,6 +138,8 @@ def attribute(ck, pid, traces, fails, extra_props=()):
             props = {prop} if prop else set()
             if cl == "RW_RefAgrees" and (tr["meta"].get("conf") or {}).get("support"):
                 props.add("C11")  # with a zero-likelihood region the recorded beta=0 evidences must enter the mixture formula
+            if cl == "NoRaise" and ev.get("site", "").startswith(("student.", "modes.", "cluster.", "train.", "resample.")):
+                props.add("C14")  # mutation could not run: no valid proposal modes / labels for this particle history
             if cl == "MB_SameSlots":
                 props.add("C14")  # the kernel must receive the labels the resampler assigned (as well as the same records)
             if tr["meta"].get("resumed") and cl in RESUME_CLAUSES:
@@ -151,8 +153,11 @@ def attribute(ck, pid, traces, fails, extra_props=()):
                 continue
             counters["clause_failures_this_property"] += 1
             dbg = (tr["meta"].get("dbg") or [None] * len(tr["events"]))[f["l"] - 1]
+            key = f"trace:{cl}"
+            if cl == "NoRaise" and ev.get("site"):
+                key = f"raised:{ev['site']}:{ev.get('exc')}"   # the failing call site identifies the finding
             ck.violation(
-                f"trace:{cl}",
+                key,
                 f"clause {cl} of PSRun fails at event {f['l']} ({f['ev']}) of run {tr['meta'].get('label')!r} seed={tr['meta'].get('seed')}",
                 {"clause": cl, "event_index": f["l"], "event": ev, "debug": dbg, "conf": tr["meta"].get("conf"),
                  "seed": tr["meta"].get("seed"), "n_total": tr["meta"].get("n_total"),
